@@ -118,6 +118,14 @@ def program(pos, sigma, tau):
         return head + "%s %s x ist %s.\nSpeichere (%s) in x.\n" % (art, t[0], val(t), val(s))
     if pos == "cast":
         return head + "Die Variable v ist (%s) als %s.\n" % (val(s), t[0])
+    if pos in ("listrep", "listlit"):
+        # a list literal of values of type sigma where a `tau Liste` is required (both forms of the literal)
+        lt = p.src("L(%s)" % tau)
+        if lt is None or sigma == "N" or sigma.startswith("L(") or tau.startswith("L(") or p.src("L(%s)" % sigma) is None:
+            return None
+        head = STRUCT + "\n".join(p.decls) + "\n"
+        lit = "2 Mal (%s)" % val(s) if pos == "listrep" else "eine Liste, die aus (%s), (%s) besteht" % (val(s), val(s))
+        return head + "Die %s x ist %s.\n" % (lt[0], lit)
 
 
 def check(res, tier):
@@ -190,17 +198,19 @@ def check(res, tier):
         pairs = [(s, t) for s in ptypes for t in ptypes] + [("N", t) for t in ptypes]
     reqs, meta, qlines = [], [], []
     for (s, t) in pairs:
-        for pos in ("init", "assign", "cast", "return"):
+        for pos in ("init", "assign", "cast", "return", "listrep", "listlit"):
             src = program(pos, s, t)
             if src is None:
                 continue
             reqs.append({"files": {"main.ddp": src}, "main": "main.ddp"})
             meta.append((pos, s, t))
-            qlines.append("typos %s %s %s" % (pos, s, t))
+            # a list literal has the type `sigma Liste`; it initialises a `tau Liste`
+            qlines.append("typos %s %s %s" % (pos, s, t) if not pos.startswith("list") else "typos init L(%s) L(%s)" % (s, t))
     outs = corr.parse_many(harness, reqs)
     want = corr.run_lines(model, qlines)
     codes = error_codes()
-    bad_codes = {"init": codes["TYP_BAD_ASSIGNEMENT"], "assign": codes["TYP_BAD_ASSIGNEMENT"], "cast": codes["TYP_BAD_CAST"], "return": codes["TYP_WRONG_RETURN_TYPE"]}
+    bad_codes = {"init": codes["TYP_BAD_ASSIGNEMENT"], "assign": codes["TYP_BAD_ASSIGNEMENT"], "cast": codes["TYP_BAD_CAST"], "return": codes["TYP_WRONG_RETURN_TYPE"],
+                 "listrep": codes["TYP_BAD_ASSIGNEMENT"], "listlit": codes["TYP_BAD_ASSIGNEMENT"]}
     res.evaluations += len(reqs)
     pm = 0
     accepted = 0
